@@ -204,6 +204,19 @@ def base : Handler
         let want := if axis == "0" then colSums d else if axis == "1" then d.rowSums else [vsum d.rowSums]
         some (holds (closeVec tol want out) ("want=" ++ showRatList want))
       | _ => none
+  | "c15.spec_type", ts => ans do
+      -- the class and shape Python returned, against the static type of the expression
+      let (e, r) ← parseExpr ts
+      match r with
+      | [k, n, m] =>
+        let showKind : Kind → String := fun k => match k with
+          | .slr => "slr" | .nrm false => "nrm" | .nrm true => "nrmT" | .lap => "lap" | .con => "con"
+          | .pol => "pol" | .gen => "gen"
+        match e.type? with
+        | .ok t => some (holds (showKind t.kind == k && toString t.nRow == n && toString t.nCol == m)
+            s!"want={showKind t.kind},{t.nRow},{t.nCol}")
+        | .error err => some ("fails want=" ++ (showErr err).replace " " "_")
+      | _ => none
   | "c15.spec_shape", ts => ans do
       let (e, r) ← parseExpr ts
       match r with
